@@ -638,24 +638,7 @@ func runC09(c *Ctx) {
 		return res[0], true
 	}
 	// (*sshFxpExtendedPacket).readonly delegates to the specific packet
-	{
-		m := p.Func("(*sshFxpExtendedPacket).readonly")
-		deleg := false
-		if m != nil {
-			eachInstr(m, func(in ssa.Instruction) {
-				if r, ok := in.(*ssa.Return); ok {
-					if call, ok := r.Results[0].(*ssa.Call); ok && call.Call.IsInvoke() && call.Call.Method.Name() == "readonly" {
-						for _, l := range leavesOf(call.Call.Value) {
-							if l.Kind == leafFieldLoad && l.Field == "SpecificPacket" {
-								deleg = true
-							}
-						}
-					}
-				}
-			})
-		}
-		c.check(deleg, "R1", "extended readonly delegates", "packet.go", "the outer extended packet reports the specific packet's readonly()", "(*sshFxpExtendedPacket).readonly no longer delegates to SpecificPacket.readonly()")
-	}
+	checkExtendedReadonly(c, "C09")
 
 	effectsOf := func(t types.Type) ([]sink, string) {
 		tn := typeName(t)
@@ -851,4 +834,97 @@ func extractErrnoTable(p *Program) (map[string]int64, string) {
 	}
 	out["default"] = def
 	return out, ""
+}
+
+
+// checkExtendedReadonly evaluates (*sshFxpExtendedPacket).readonly() as a function of its SpecificPacket field:
+// every possible result is classified by the nil-ness of SpecificPacket on the path that selects it.
+//   C09: when a specific packet was decoded, the answer is that packet's own readonly() (or the safe `false`);
+//   C19: when none was decoded (unknown extension name) the answer is `true`, so the read-only gate does not
+//        pre-empt the SSH_FX_OP_UNSUPPORTED reply.
+func checkExtendedReadonly(c *Ctx, prop string) {
+	p := c.P
+	m := p.Func("(*sshFxpExtendedPacket).readonly")
+	if m == nil || m.Blocks == nil {
+		c.missing("R1", "(*sshFxpExtendedPacket).readonly")
+		return
+	}
+	isSP := func(v ssa.Value) bool {
+		for _, l := range leavesOf(v) {
+			if l.Kind == leafFieldLoad && l.Field == "SpecificPacket" {
+				return true
+			}
+		}
+		return false
+	}
+	// nil-ness of SpecificPacket under a set of branch conditions: +1 non-nil, -1 nil, 0 unknown
+	state := func(conds map[ssa.Value]bool) int {
+		st := 0
+		for cv, truth := range conds {
+			b, ok := cv.(*ssa.BinOp)
+			if !ok || (b.Op != token.EQL && b.Op != token.NEQ) {
+				continue
+			}
+			var other ssa.Value
+			if isNilConst(b.X) {
+				other = b.Y
+			} else if isNilConst(b.Y) {
+				other = b.X
+			} else {
+				continue
+			}
+			if !isSP(other) {
+				continue
+			}
+			isNil := (b.Op == token.EQL) == truth
+			if isNil {
+				st = -1
+			} else {
+				st = 1
+			}
+		}
+		return st
+	}
+	delegOK, unknownOK, sawNilCase := true, true, false
+	var why09, why19 string
+	leaves := returnLeaves(m, 0)
+	for _, l := range leaves {
+		st := state(edgeConds(l.block, l.pred))
+		if k, ok := l.v.(*ssa.Const); ok && k.Value != nil && k.Value.Kind() == constant.Bool {
+			if constant.BoolVal(k.Value) {
+				if st == -1 {
+					sawNilCase = true
+				} else {
+					delegOK = false
+					why09 = "readonly() can answer true for an extended request whose specific packet was decoded, without asking it"
+				}
+			} else {
+				if st != 1 {
+					unknownOK = false
+					why19 = "an extended request with an unknown name is classified as a write: a read-only server answers SSH_FX_PERMISSION_DENIED instead of SSH_FX_OP_UNSUPPORTED"
+				}
+			}
+			continue
+		}
+		if call, ok := l.v.(*ssa.Call); ok && call.Call.IsInvoke() && call.Call.Method.Name() == "readonly" && isSP(call.Call.Value) {
+			continue
+		}
+		delegOK, unknownOK = false, false
+		why09 = "result of readonly() not understood: " + l.v.String()
+		why19 = why09
+	}
+	if len(leaves) == 0 {
+		delegOK, unknownOK = false, false
+		why09, why19 = "no return found", "no return found"
+	}
+	if !sawNilCase && unknownOK {
+		unknownOK = false
+		why19 = "readonly() has no case for an extended request with an unknown name (SpecificPacket == nil)"
+	}
+	switch prop {
+	case "C09":
+		c.check(delegOK, "R1", "extended readonly delegates", p.Pos(m.Pos()), "with a decoded specific packet the answer is that packet's readonly()", why09)
+	case "C19":
+		c.check(unknownOK, "R6", "unknown extension is not refused by the read-only gate", p.Pos(m.Pos()), "SpecificPacket == nil ⇒ readonly() is true, so the request reaches the op-unsupported reply", why19)
+	}
 }
